@@ -30,15 +30,18 @@ TRUSTED = ["numpy float32 arithmetic is exact on the dyadic inputs of the exact 
            "numpy.linalg.inv / matmul / remainder used by move_inside_box are exact on diagonal power-of-two boxes"]
 ASSUMPTIONS = ["float32 rounding in cell binning, ceil(radius/cell_size) and sq_dist <= sq_radius is not modelled (ℚ model); "
                "general floats are only tested against a float64 brute force with a 1e-4 relative guard band",
-               "triclinic periodic boxes: numeric oracle only (angles 60..120 deg), no theorem",
+               "triclinic periodic boxes: numeric oracle only (angles 60..120 deg), no theorem; the periodic theorems are for orthorhombic boxes diag(Lx,Ly,Lz), L > 0",
                "memory safety of the malloc'd pointer cells is not a theorem; only the index invariant "
                "0 <= cell index < cell_count is proved on the ℚ model (C14_cells_in_grid)",
                "result-buffer length must stay below 2^31 (hypothesis NoOverflow / Guard.fits); beyond it the code fails (known finding)"]
 LEVEL_TEXT = ("Lean 4 proofs over ℚ for all inputs: window sufficiency with C truncation for any query point, "
               "get_atoms = {d² ≤ r²} as a set (indices ⇔ masks, scalar ⇔ per-query radii, selection), cell queries ⊇ "
-              "Chebyshev ball, adjacency symmetric = thresholded distances, orthorhombic periodic = minimum image over "
-              "all lattice vectors; tied to celllist.pyx by an exact dyadic correspondence stream and regenerated loop "
-              "bounds. Partial: float32 rounding, triclinic boxes and pointer-cell memory safety are exercised, not proved.")
+              "Chebyshev ball, adjacency symmetric = thresholded distances; periodic orthorhombic mode proved as one theorem: "
+              "get_atoms = {a | minimum-image dist² ≤ r²} for every query point and every r ≥ 0 (no r-vs-box hypothesis is "
+              "needed; incl. the repeat_box_coord index bookkeeping position = image·n + atom and `% n`), periodic cell "
+              "queries ⊇ lattice Chebyshev ball, periodic adjacency = thresholded minimum-image matrix, symmetric; tied to "
+              "celllist.pyx / box.py by an exact dyadic correspondence stream and regenerated loop bounds. Partial: float32 "
+              "rounding, triclinic boxes and pointer-cell memory safety are exercised, not proved.")
 LEVEL_NOTE = "ℚ model of float32 code; exact only where float32 arithmetic is exact; int overflow of the buffer length is a known finding"
 TECHNIQUE = "Lean 4 proof (floor/ceil/trunc arithmetic over ℚ, list membership invariants) + exact dyadic correspondence + float64 brute-force oracle"
 
@@ -862,6 +865,12 @@ def corpus():
         {"kind": "exact", "ops": ["new 0 1 - - 5,5,5", "atoms idx s 5,5,5 s:0", "atoms idx s -1000,900,5 s:2000", "adj 0"]},
         # periodic: neighbour through the box face, query outside the box
         {"kind": "exact-periodic", "ops": ["new 0 2 8,8,8 - 0,0,0,7,0,0,4,4,4", "atoms idx m 0,0,0,16,8,-8 s:1", "adj 1", "cells mask s 7,7,7 s:1"]},
+        # periodic, radius far beyond the box (r = 20, 2.5 box lengths): never rejected, nothing missed;
+        # index rows repeat atoms (one entry per image), sets / masks stay exact (Props: example after C14_periodic_adjacency_symm)
+        {"kind": "exact-periodic", "ops": ["new 0 8 8,8,8 - 0,0,0,7,0,0,4,4,4", "atoms idx s 3,0,0 s:20", "atoms mask s 3,0,0 s:20",
+                                           "adj 20", "atoms idx m 3,0,0,-100,50,7 m:9,1", "cells idx s 100,100,100 s:2"]},
+        {"kind": "exact-periodic", "ops": ["new 1 4 8,16,32 01101 0,0,0,15,1,1,-1,-1,-1,8,16,32,9,17,33", "atoms idx m 0,0,0,7,15,31 s:3",
+                                           "adj 4", "cells mask m 0,0,0,-9,-17,-33 m:1,0"]},
         # selection: unselected atoms never returned, adjacency rows of unselected atoms empty
         {"kind": "exact", "ops": ["new 0 2 - 1010 0,0,0,1,0,0,2,0,0,3,0,0", "atoms idx s 1,0,0 s:5", "adj 2"]},
     ]
